@@ -56,6 +56,18 @@ CHECKS = {
     "C04": ("exploration", "runtime monitoring: reference-model oracle (Python evaluator written from the function documentation, re-validated against the tree's inline examples at run time) applied to --select columns of real runs",
             "Every generated expression is evaluated by the real code on generated inputs and by the reference evaluator on the same AST; each column must equal the model's value or be absent exactly when the model says nothing. All 108 pure functions are targeted in turn; all aliases via spelling variants.",
             "Trusts vf/exprmodel.py as the reading of the documentation fixed in SEMANTICS.md (it agrees with 407 inline examples of the repository); corners the documents leave open are answered UNSPECIFIED and not compared (counted in the evidence).", "5 C04, SEMANTICS.md"),
+    "C03": ("exploration", "runtime monitoring: reference-model oracle (documented stage composition as pure list transformations) plus metamorphic argv-order oracle over generated option subsets and histories",
+            "Each generated configuration (all option kinds, core-grammar expressions, planted order probes) runs for real in two argv orders; stdout must be byte-identical between the orders and match the reference pipeline's rows; hook counters show how much each stage actually processed.",
+            "Trusts vf/pipemodel.py + the reference evaluator restricted to a core sub-grammar; cases needing an order the documents do not define (object vs object) are not compared.", "5 C03"),
+    "C07": ("exploration", "runtime monitoring: exhaustive comparator matrix observed through the six comparison functions (order axioms over all triples, agreement with the documented order) and stable-sort model for --sort-by and the six sort functions",
+            "All ordered pairs of a 127-value universe x 6 operators in one real run, axioms checked over all triples; random sequences with ties/absent keys sorted by 1-3 keys and directions, and the sort functions, compared with a stable sort under the validated comparator.",
+            "Object-vs-object order is taken from the observed relation once shown to be a strict total order compatible with =; -0, |n| >= 2^53 and member-order permutations are outside the domain.", "5 C07"),
+    "C15": ("exploration", "runtime monitoring: reference-model oracle (independent RFC 4180 reader with skip-initial-space; field renderer for text mode) over generated rows and text options",
+            "Rows of 1-5 selections over all JSON types and absent, with quotes, commas, CR/LF, tabs and non-ASCII text, are printed for real as csv and as text under generated options and read back field by field.",
+            "Text mode data avoids the item separator and line breaks, escape sequences are single characters (as the property says); trusts vf/csvmodel.py.", "5 C15"),
+    "C19": ("exploration", "runtime monitoring: digit-identity oracle for 64-bit integers through 36 pipeline/function templates and exact-rational oracle (fractions.Fraction) for the number-as-string functions",
+            "Boundary and random integers of [-2^63, 2^64) are carried through every non-arithmetic stage/function template in all output styles and must come out digit for digit; decimal strings up to 60 digits / exponent +-100 go through \"+\" \"-\" \"*\" \"abs\" \"||\" and the comparisons and are compared exactly.",
+            "Operands are spelt -?digits[.digits][(e|E)[+-]?digits]; sorting among integers >= 2^53 is only exercised with a constant key (C07 excludes their order).", "5 C19"),
 }
 
 PENDING_REASON = "check not built yet in this session (see DESIGN.md section 5 for the planned monitor)"
